@@ -5,13 +5,14 @@ CONFIG = {
             "x calls with 0..3 explicit positionals, every subset of keyword names (all parameter names + one unknown), *seq in {absent,[],[x],[x,y]}, "
             "**map in {absent,{},one key for each name of the universe + a 2nd unknown, a two-key map}, plus non-iterable * / non-mapping ** operands "
             "(quick: full product for <=1 positional and <=1 keyword-only parameter, VERIF_SEED-derived 10% of the rest; thorough: all); "
-            "4 Go signatures x {module function, via instance, via class} x 1024 calls; "
+            "4 Go signatures x {module function, via instance, via class with the receiver first, via class without receiver (TypeError cases)} x 256 calls; "
             "non-trivial = anything but a plain positional call of a positional-only signature with the exact count; distinct = distinct input lines",
     "trusted_base": [
         "Lean 4.33.0 kernel; axioms allowed: propext, Classical.choice, Quot.sound (audited per theorem on every run)",
         "lean/GPy/C04/Spec.lean: my transcription of the binding rules of the Language Reference 6.3.4 (Calls) as conditions + per-parameter values",
         "lean/GPy/C04/Model.lean: hand transliteration of EvalCode's argument parsing, Vm.Call, callHelper, compileFunc/_make_function operand packing, "
-        "py/method.go + py/boundmethod.go dispatch; tied to the repo by the correspondence run only (every case parsed, compiled and run by the real packages)",
+        "py/method.go + py/boundmethod.go dispatch (incl. the unbound method Method.M__get__(None, cls) makes); tied to the repo by the correspondence run only (every case parsed, compiled and run by the real packages)",
+        "lean/GPy/C10/Model.lean (py/args.go ParseTupleAndKeywords), imported for the Go-callable boundary theorem native_parse_delivery; its tie to the repo is C10's correspondence run",
         "parser, symtable (order of co_varnames: positional, keyword-only, *name, **name), LOAD_FAST/BUILD_TUPLE/RETURN_VALUE and dict/list/tuple display "
         "evaluation are exercised end to end but not modelled: a defect there shows up as a model/implementation disagreement",
         "harness/c04.go and checks/common.py (case transport, canonical text of tuples and sorted dicts)",
